@@ -1544,6 +1544,13 @@ int run_probe(const model_t& model, const int stack, const probe_t& p)
             // documented use: after shuffle(feature); here the feature index itself is out of range
             got = to_vec(dataset.shuffled(p.feature, idx));
         }
+        else if (p.call == "add-generator")
+        {
+            // a generator restricted to a subset of the data source's features: p.feature is the (possibly invalid) index
+            dataset.add<scalar_identity_generator_t>(make_indices(0, p.feature));
+            dataset.add<pairwise_product_generator_t>(make_indices(0, p.feature));
+            got.push_back(static_cast<double>(dataset.features()));
+        }
         else if (p.call == "shuffled-after-shuffle")
         {
             // the reported bijection of a shuffled feature, asked for a list of sample indices
@@ -1801,6 +1808,14 @@ int stage_bounds(const args_t& args, report_t& r)
             {
                 probes.push_back({"select", x, {0}, false, klass + ":" + cls});
             }
+        }
+        {
+            const auto S = static_cast<tensor_size_t>(model.inputs.size()) + (model.has_target() ? 1 : 0);
+            for (const tensor_size_t x : {tensor_size_t(-1), S, S + 7})
+            {
+                probes.push_back({"add-generator", x, {0}, false, "generator-feature-index-out-of-range"});
+            }
+            probes.push_back({"add-generator", 0, {0}, true, "valid"});
         }
         for (const tensor_size_t x : {tensor_size_t(0), F - 1})
         {
